@@ -321,7 +321,7 @@ def runOpts (toks : List String) : String :=
   let file? := fileT.mapM unhex
   match cmd?, file? with
   | some cmd, some file =>
-    match electionSetup cmd file with
+    match (electionSetupS cmd file {}).2 with
     | .ok (o, _, cfg) =>
       let a := match cfg with
         | .fixed p d => s!"fixed {p} {d}"
@@ -379,6 +379,49 @@ def runOp (toks : List String) : String :=
     | _, _, _ => "BAD-INPUT"
   | _ => "BAD-INPUT"
 
+def showOI : Option Int → String
+  | some n => toString n
+  | none => "n"
+def showOS : Option String → String
+  | some s => hexOf s
+  | none => "n"
+
+def showClassState (cs : ClassState) : String :=
+  let f := cs.fixed; let g := cs.guarded; let r := cs.rational
+  s!"F:{showOS f.name},{showOI f.precision},{showOI f.display},{showOI f.scale},{showOI f.scaled},{showOI f.scaledd},{showOI f.scaledr},{showOI f.epsilon},{showOI f.dfmt},{showOS f.info} " ++
+  s!"G:{showOI g.precision},{showOI g.guard},{showOI g.display},{showOI g.scalep},{showOI g.scaleg},{showOI g.scale},{showOI g.scaledd},{showOI g.scaledr},{showOI g.scaled},{showOI g.scaledg},{showOI g.geps},{showOI g.maxDiff},{showOI g.minDiff},{showOI g.dfmtP},{showOI g.dfmtG},{showOS g.info},{b2s g.quasiExact},{b2s g.exact},{showOI g.epsilon} " ++
+  s!"R:{showOI r.dp},{showOI r.dps},{showOI r.dfmt}"
+
+def parseElection (toks : List String) : Option (Dict × List String) :=
+  let (cmdT, fileT) := (toks.takeWhile (· != "|"), (toks.dropWhile (· != "|")).drop 1)
+  let cmd? := cmdT.mapM (fun t => match t.splitOn "=" with
+    | [k, v] => do some ((← unhex k), (← parseOV v))
+    | _ => none)
+  match cmd?, fileT.mapM unhex with
+  | some c, some f => some (c, f)
+  | _, _ => none
+
+def splitOnTok (sep : String) (toks : List String) : List (List String) :=
+  let r := toks.foldl (fun (acc : List (List String) × List String) t =>
+              if t == sep then (acc.2.reverse :: acc.1, []) else (acc.1, t :: acc.2)) ([], [])
+  (r.2.reverse :: r.1).reverse
+
+/-- SESSION e1 ;; e2 ;; ... : outcome class and class state after each election constructor of a history -/
+def runSessionLine (toks : List String) : String :=
+  match (splitOnTok ";;" toks).mapM parseElection with
+  | none => "BAD-INPUT"
+  | some es =>
+    let r := es.foldl (fun (acc : ClassState × List String) e =>
+      let x := electionSetupS e.1 e.2 acc.1
+      let oc := match x.2 with
+        | .ok _ => "OK"
+        | .error .usage => "UsageError"
+        | .error .election => "ElectionError"
+        | .error .arithValues => "ArithmeticValuesError"
+        | .error (.crash k) => "CRASH " ++ k
+      (x.1, (oc ++ " " ++ showClassState x.1) :: acc.2)) (({} : ClassState), [])
+    " ;; ".intercalate r.2.reverse
+
 partial def loopIO (h : IO.FS.Stream) : IO Unit := do
   let line ← h.getLine
   if line.isEmpty then return ()
@@ -390,6 +433,7 @@ partial def loopIO (h : IO.FS.Stream) : IO Unit := do
   | "STR" :: rest => IO.println (runStr rest)
   | "OP" :: rest => IO.println (runOp rest)
   | "OPTS" :: rest => IO.println (runOpts rest)
+  | "SESSION" :: rest => IO.println (runSessionLine rest)
   | ["PARSE", hex] => IO.println (runParse hex)
   | ["PARSE"] => IO.println (runParse "")
   | ["UNITABLES"] =>
